@@ -140,6 +140,10 @@ def configs(tier):
         for profs in itertools.product(SEL8[:5], repeat=4):
             for edges in dags(4)[::7]:
                 out.append(dict(kind='profiles', profs=profs, edges=edges, ext=None))
+    # a saved state that happens to be None / another falsy value is a saved state
+    for val in ('NONE', 0, '', False, ()):
+        for order in (0, 1):
+            out.append(dict(kind='savedfalsy', val=val, order=order))
     for cb in ('ok', 'raise', 'unstable', 'undef'):
         for acleanup in (False, True):
             for slowinit in (False, True):
@@ -436,6 +440,10 @@ def run_firsteval(cfg, acc):
     with Sim() as sim:
         circuit = sim.circuit
         src = edzed.Input('src', initdef=1)
+        # blocks fed by constants only / by nothing at all get their output in the first pass too
+        edzed.Not('konst').connect(False)
+        edzed.FuncBlock('noinputs', func=lambda: 42)
+        edzed.And('konst2').connect(True, edzed.Const(1))
         if cfg.get('large'):
             # n healthy blocks are evaluated before the last one (which fails if cb == 'raise')
             shape, n = cfg['large']
@@ -627,6 +635,42 @@ def run_initasync(cfg, acc):
     return viol
 
 
+def run_savedfalsy(cfg, acc):
+    viol = []
+    val = None if cfg['val'] == 'NONE' else cfg['val']
+    res = {}
+    with Sim() as sim:
+        def mk_other():
+            return edzed.Input('other', initdef='o')
+        if cfg['order'] == 0:
+            mk_other()
+        inp = edzed.Input('inp', persistent=True, initdef='the-default')
+        if cfg['order'] == 1:
+            mk_other()
+        storage = {inp.key: val, 'edzed-stop-time': 999_000.0}
+        sim.circuit.set_persistent_data(storage)
+
+        async def driver():
+            task = asyncio.create_task(sim.circuit.run_forever())
+            try:
+                await sim.circuit.wait_init()
+                res['out'] = inp.output
+            except Exception as err:    # pylint: disable=broad-except
+                res['err'] = repr(err)
+            await stop(sim.circuit)
+            del task
+        sim.run(driver())
+    acc.execs += 1
+    acc.outcome(('savedfalsy', repr(val), cfg['order'], repr(res)))
+    acc.state(('savedfalsy', repr(val)))
+    if 'err' in res:
+        viol.append(('startup-result', f"saved state {val!r}: start failed: {res['err']}"))
+    elif res['out'] != val or type(res['out']) is not type(val):
+        viol.append(('saved-state-not-used', f"persistent Input with the saved state {val!r} and initdef "
+                     f"'the-default' came up with {res['out']!r}: the saved state is the first source"))
+    return viol
+
+
 def cfg_key(cfg):
     return (cfg['profs'], cfg['edges'], cfg['ext'], cfg.get('ts'), cfg.get('exp'), cfg.get('etype'),
             cfg.get('wires'))
@@ -653,7 +697,8 @@ def run_config(cfg):
         acc.sample({'profiles': cfg['profs'], 'edges': cfg['edges'], 'ext': cfg['ext'],
                     'started': results}, limit=3)
     else:
-        fn = {'firsteval': run_firsteval, 'valuepoll': run_valuepoll, 'initasync': run_initasync}[cfg['kind']]
+        fn = {'firsteval': run_firsteval, 'valuepoll': run_valuepoll, 'initasync': run_initasync,
+              'savedfalsy': run_savedfalsy}[cfg['kind']]
         for sig, msg in fn(cfg, acc):
             acc.violation(f"C05:{sig}", msg, cfg=cfg)
     return acc
